@@ -265,6 +265,11 @@ def _is_integral(v):
     return all(x.denominator == 1 for x in v)
 
 
+def _on_lattice(v):
+    """exactly representable and exactly divisible in float32 (DESIGN section 4)"""
+    return all(x.denominator in (1, 2, 4) and abs(x) <= 2 ** 20 for x in v)
+
+
 def oracle(case: Case, out: str):
     if not case.claimed:
         return None
@@ -326,10 +331,12 @@ def oracle(case: Case, out: str):
             continue
         # divide
         ksum = [sum((before[t][i] for t in known), Fraction(0)) for i in range(count)]
+        cls = "int-input" if mode in INT_MODES else "float-input"
         if not unknown:
             if amount == ksum:
                 if ans != "ok":
-                    return ("divide-refused-consistent", f"{vtok(amount)} on {ptok(p)} equals the total already set but was refused")
+                    return (f"divide-refused:{cls}", f"{vtok(amount)} ({mode}) on {ptok(p)} equals the total already set for all "
+                            f"{len(toks)} pieces but raised")
             elif ans == "ok":
                 return ("divide-inconsistent-accepted", f"{vtok(amount)} on {ptok(p)} contradicts the total {vtok(ksum)} already set for "
                         f"all {len(toks)} pieces but was accepted")
@@ -337,10 +344,16 @@ def oracle(case: Case, out: str):
                 promised[ptok(p)] = (amount, False)
             continue
         if ans != "ok":
-            cls = "int-input" if mode in INT_MODES else "float-input"
             return (f"divide-refused:{cls}", f"{vtok(amount)} ({mode}) on {ptok(p)} with {len(unknown)} of {len(toks)} pieces unknown raised")
         share = [(amount[i] - ksum[i]) / len(unknown) for i in range(count)]
         lossy = kind == "int" and not _is_integral(share)
+        if kind == "num" and not _on_lattice(share):
+            # outside the numeric policy (float32 would round the share): only "untouched" is checked
+            if after is not None:
+                for t, v in before.items():
+                    if after.get(t) != v:
+                        return ("divide-overwritten", f"{t} held {vtok(v)} before the input on {ptok(p)}, now {after.get(t)}")
+            continue
         promised[ptok(p)] = (amount, lossy)
         if after is None:
             continue
@@ -740,7 +753,10 @@ PROP = Prop(
         "variables are not neutralised, have no `end` date and no formula; inputs are not strings; memory_config is None (no on-disk storage)",
         "numpy conversions (asarray/astype, float32 true division, in-place subtract, sum of arrays) and pendulum date arithmetic are modelled, tied by this correspondence",
     ],
-    partial_theorems=[],
+    partial_theorems=[
+        "C16_divide_conserves_int_partial: conservation on int-typed variables only when the equal share is a whole number; "
+        "the full statement is false of the code (finding F-C16c: every share is truncated on storage, 100 over 12 months sums to 96)",
+    ],
     exhaustive_note=("thorough: month variable x year 2018 x all 4096 subsets of pre-set months x both rules; day variable x every month of "
                      "2019-2020 x (no / each single pre-set day) x both rules; month variable x every rolling year starting in 2019-2020"),
 )
